@@ -1411,32 +1411,30 @@ impl<'a> UserModel<'a> {
                 if view.sheet == sheet {
                     // We select the next visible column
                     let mut column = column_end + 1;
-                    while self
-                        .model
-                        .workbook
-                        .worksheet(sheet)?
-                        .is_column_hidden(column)?
-                    {
-                        column += 1;
-                        if column > LAST_COLUMN {
-                            break;
-                        }
-                    }
-                    if column > LAST_COLUMN {
-                        // We select the previous visible column
-                        column = column_start - 1;
-                        while self
+                    while column <= LAST_COLUMN
+                        && self
                             .model
                             .workbook
                             .worksheet(sheet)?
                             .is_column_hidden(column)?
+                    {
+                        column += 1;
+                    }
+                    if column > LAST_COLUMN {
+                        // We select the previous visible column
+                        column = column_start - 1;
+                        while column >= 1
+                            && self
+                                .model
+                                .workbook
+                                .worksheet(sheet)?
+                                .is_column_hidden(column)?
                         {
                             column -= 1;
-                            if column <= 0 {
-                                // We can't find a visible column
-                                column = 1;
-                                break;
-                            }
+                        }
+                        if column < 1 {
+                            // We can't find a visible column
+                            column = 1;
                         }
                     }
                     self.set_selected_cell(1, column)?;
@@ -1476,22 +1474,21 @@ impl<'a> UserModel<'a> {
                 if view.sheet == sheet {
                     // We select the next visible row
                     let mut row = row_end + 1;
-                    while self.model.workbook.worksheet(sheet)?.is_row_hidden(row)? {
+                    while row <= LAST_ROW
+                        && self.model.workbook.worksheet(sheet)?.is_row_hidden(row)?
+                    {
                         row += 1;
-                        if row > LAST_ROW {
-                            break;
-                        }
                     }
                     if row > LAST_ROW {
                         // We select the previous visible row
                         row = row_start - 1;
-                        while self.model.workbook.worksheet(sheet)?.is_row_hidden(row)? {
+                        while row >= 1 && self.model.workbook.worksheet(sheet)?.is_row_hidden(row)?
+                        {
                             row -= 1;
-                            if row <= 0 {
-                                // We can't find a visible row
-                                row = 1;
-                                break;
-                            }
+                        }
+                        if row < 1 {
+                            // We can't find a visible row
+                            row = 1;
                         }
                     }
                     self.set_selected_cell(row, 1)?;
